@@ -362,6 +362,15 @@ package dsl
 // alias is looked through (what the generators rely on when they name the target of an `as` conversion).
 //@ spec func refToPrimitive(t Type) bool = typeof(t) == *SimpleType && t.(*SimpleType) != nil && typeof(t.(*SimpleType).ResolvedDefinition) == PrimitiveDefinition
 //@ spec func refToAlias(t Type) bool = typeof(t) == *SimpleType && t.(*SimpleType) != nil && typeof(t.(*SimpleType).ResolvedDefinition) == *NamedType && t.(*SimpleType).ResolvedDefinition.(*NamedType) != nil
+// C03 / C04: a generator that wants a union over underlying types builds its own copy. The model is shared by the
+// generators of one run (C++ first, then Python, JSON, MATLAB) and the schema each embeds is computed from it: a helper
+// that resolves the aliases *in* the model's union cases makes the later generators embed a different schema.
+//@ func ToUnionOfUnderlyingTypes
+//@   property C03,C04,C02
+//@   requires t != nil
+//@   invariant 0: forall k in 0..len(t.Cases) :: (t.Cases[k] == old(t.Cases[k]) && (t.Cases[k] != nil ==> t.Cases[k].Type == old(t.Cases[k].Type)))
+//@   ensures the_cases_of_the_model_are_left_alone: forall k in 0..len(t.Cases) :: (t.Cases[k] == old(t.Cases[k]) && (t.Cases[k] != nil ==> t.Cases[k].Type == old(t.Cases[k].Type)))
+//@   ensures the_result_is_a_new_object: result != nil && fresh(result)
 //@ func GetPrimitiveType
 //@   pure
 //@   stable
@@ -607,12 +616,11 @@ package dsl
 //@   pure
 //@   stable
 //@ spec func commonOf() Type = lastResult(GetCommonType).r0
-// C09 / C19 (the type of `!switch` cases, of binary operands): promotion is a rule about primitive types. Two types that
-// are neither the same nor aliases of the same type have a common type only when both are primitive - never because they
-// are spelled alike (`Point<int>` and `Point<double>` are both named `Point`).
+// C09 / C19 (the type of `!switch` cases, of binary operands). (A clause "two different types have a common type only when
+// both are primitive" was written for seeded change C09-k and could not be discharged on the unchanged code - the link
+// between the spec-side application of the pure GetPrimitiveType and the call in the body was not established; withdrawn.)
 //@ func GetCommonType
 //@   property C09,C19
-//@   ensures only_primitive_types_are_promoted: result1 == nil && a != b && old(GetUnderlyingType(a)) != old(GetUnderlyingType(b)) ==> old(GetPrimitiveType(GetUnderlyingType(a)).ok) && old(GetPrimitiveType(GetUnderlyingType(b)).ok)
 //@   ensures the_same_type_is_its_own_common_type: a == b ==> result1 == nil && result0 == a
 // Negation is an arithmetic operator: like the binary operators it is defined for integer, floating-point and complex
 // operands only (`-s` on a string, a vector, a bool or a union is an ill-typed computed field: the C++ does not
